@@ -1,6 +1,8 @@
 package main
 
 import (
+	"fmt"
+	"go/token"
 	"go/types"
 	"strings"
 
@@ -21,6 +23,8 @@ func propC05() *Property {
 			{ID: "R05.2", Floor: 4, Text: "stores to StreamUnderlay.send / .recv have authenticated provenance: send = Clone(block) under isClient or Clone(recv); recv = Clone(block) under isClient, Discover(..) result on its nil-error edge, or nil; maybeInitSendBlockCipher returns nil on a server only with send or recv set", Run: r05_2},
 			{ID: "R05.3", Floor: 6, Text: "packet server path: no non-nil segment is returned unless decrypted==true, decrypted is only set from an existing session's cipher or Discover's nil-error edge; segment.block and Session.block are only copies of authenticated ciphers", Run: r05_3},
 			{ID: "R05.4", Floor: 6, Text: "server sessions: newSessionWithServerUserPolicy(isClient=false) and sends on readySessions only in onOpenSessionRequest; onOpenSessionRequest only called from RunEventLoop; a failed validateNewServerSessionSegment never reaches session creation or a returned segment", Run: r05_4},
+			{ID: "R05.6", Floor: 12, Text: "direction gate: validateServerSegmentDirection (applied to every datagram authenticated by discovery) returns nil only for protocols a client sends (openSessionRequest, closeSession*, *ClientToServer*); Session.input on a server passes only those, on a client only the server-to-client ones — evaluated by constant propagation for every protocol number 0..15", Run: r05_6},
+			{ID: "R05.7", Floor: 1, Text: "a TCP first segment authenticated against a user generation is accepted only if that generation is still the published one after discovery (a credential removed by a completed reload no longer opens a session)", Run: func(c *RC) { ruleRecheckGeneration(c) }},
 			{ID: "R05.5", Floor: 3, Text: "failure branches (stream: readOneSegment error in RunEventLoop; packet: undecryptable datagram, replay) call nothing that may write to the underlay connection before the next read", Run: r05_5},
 		},
 	}
@@ -269,7 +273,7 @@ func r05_2(c *RC) {
 			// every return with non-nil error after setSite must be preceded by recv=nil
 			bad := reachableAvoiding(fn, setSite, func(in ssa.Instruction) bool {
 				r, ok := in.(*ssa.Return)
-				return ok && len(r.Results) == 3 && !isNilConst(r.Results[2])
+				return ok && len(r.Results) == 3 && !retIsNil(r, 2)
 			}, func(in ssa.Instruction) bool {
 				st, ok := in.(*ssa.Store)
 				if !ok {
@@ -318,7 +322,7 @@ func r05_2(c *RC) {
 	badRet := false
 	for b := range reach {
 		for _, in := range b.Instrs {
-			if r, ok := in.(*ssa.Return); ok && len(r.Results) == 1 && isNilConst(r.Results[0]) {
+			if r, ok := in.(*ssa.Return); ok && len(r.Results) == 1 && retIsNil(r, 0) {
 				badRet = true
 				c.Bad("gate:maybeInitSendBlockCipher", r.Pos(), "maybeInitSendBlockCipher can return nil on a server although neither send nor recv is set: the write gate is open for unauthenticated peers")
 			}
@@ -385,7 +389,7 @@ func r05_3(c *RC) {
 	nret := 0
 	instrs(fn, func(b *ssa.BasicBlock, _ int, in ssa.Instruction) {
 		r, ok := in.(*ssa.Return)
-		if !ok || len(r.Results) != 3 || isNilConst(r.Results[0]) {
+		if !ok || len(r.Results) != 3 || retIsNil(r, 0) {
 			return
 		}
 		nret++
@@ -445,7 +449,7 @@ func r05_3(c *RC) {
 				return
 			}
 			key := "discover-result@serverTryDecryptMetadataForNewSession"
-			if isNilConst(r.Results[3]) {
+			if retIsNil(r, 3) {
 				// success return: cipher must be Discover's result and on nil edge
 				good := false
 				if ex, ok := r.Results[0].(*ssa.Extract); ok {
@@ -462,7 +466,7 @@ func r05_3(c *RC) {
 				} else {
 					c.Bad(key, r.Pos(), "serverTryDecryptMetadataForNewSession returns nil error with a cipher that is not Registry.Discover's result on its nil-error edge: %s", describe(r.Results[0]))
 				}
-			} else if !isNilConst(r.Results[0]) {
+			} else if !retIsNil(r, 0) {
 				c.Bad(key, r.Pos(), "error return carries a non-nil cipher")
 			} else {
 				c.OK(key, r.Pos(), "error return carries no cipher")
@@ -696,7 +700,7 @@ func r05_4(c *RC) {
 			continue
 		}
 		hit := reachableAvoiding(cs.Fn, errSucc.Instrs[0], func(in ssa.Instruction) bool {
-			if r, ok := in.(*ssa.Return); ok && len(r.Results) == 3 && !isNilConst(r.Results[0]) {
+			if r, ok := in.(*ssa.Return); ok && len(r.Results) == 3 && !retIsNil(r, 0) {
 				return true
 			}
 			if cl, ok := in.(ssa.CallInstruction); ok {
@@ -960,3 +964,106 @@ func leafKind(l ssa.Value) string {
 }
 
 func itoa(i int) string { return strings.TrimSpace(strings.Replace(strings.Repeat("x", 0)+fmtInt(i), " ", "", -1)) }
+
+// clientSends reports whether a protocol constant (by name) is one a client
+// sends to a server.
+func clientSends(name string) bool {
+	switch {
+	case strings.Contains(name, "ClientToServer"):
+		return true
+	case name == "openSessionRequest", name == "closeSessionRequest", name == "closeSessionResponse":
+		return true
+	}
+	return false
+}
+
+func serverSends(name string) bool {
+	switch {
+	case strings.Contains(name, "ServerToClient"):
+		return true
+	case name == "openSessionResponse", name == "closeSessionRequest", name == "closeSessionResponse":
+		return true
+	}
+	return false
+}
+
+func r05_6(c *RC) {
+	p := c.P
+	consts := protocolConsts(p)
+	if len(consts) < 10 {
+		c.Anchor("pkg/protocol protocolType constants")
+		return
+	}
+	byVal := map[int64]string{}
+	for n, v := range consts {
+		byVal[v] = n
+	}
+	vd := p.Fn(protoPkg, "validateServerSegmentDirection")
+	if vd == nil {
+		c.Anchor("validateServerSegmentDirection")
+	} else {
+		for k := int64(0); k < 16; k++ {
+			f := &Folder{P: p, Assume: assumeProtocol(k, nil)}
+			outs := f.Eval(vd, []cval{{nonNil: true}})
+			acc, _ := acceptsNil(outs)
+			name := byVal[k]
+			if name == "" {
+				name = "undefined"
+			}
+			key := fmt.Sprintf("direction:server-new-session:%d(%s)", k, name)
+			want := clientSends(name)
+			switch {
+			case f.Over:
+				c.Undecided(key, vd.Pos(), "constant propagation budget exceeded")
+			case acc && !want:
+				c.Bad(key, vd.Pos(), "validateServerSegmentDirection accepts protocol %d (%s), which only a server sends: a recorded server datagram reflected from any address would be processed (and answered) as if it came from an authenticated client", k, name)
+			case !acc && want:
+				c.Bad(key, vd.Pos(), "validateServerSegmentDirection rejects protocol %d (%s), which clients legitimately send", k, name)
+			default:
+				c.OKH(key, vd.Pos(), "protocol %d (%s): accepted=%v as required", k, name, acc)
+			}
+		}
+	}
+	in := p.Fn(protoPkg, "Session.input")
+	if in == nil {
+		c.Anchor("Session.input")
+		return
+	}
+	stop := func(x ssa.Instruction) bool {
+		// the whitelist is over once the function looks at seg.block
+		if u, ok := x.(*ssa.UnOp); ok && u.Op == token.MUL {
+			if f := fieldOrigin(u); f != nil && f.Name() == "block" {
+				return true
+			}
+		}
+		return false
+	}
+	for _, isClient := range []bool{false, true} {
+		for k := int64(0); k < 16; k++ {
+			f := &Folder{P: p, Assume: assumeProtocol(k, map[string]bool{"isClient": isClient}), Stop: stop}
+			outs := f.Eval(in, []cval{{nonNil: true}, {nonNil: true}})
+			acc, _ := acceptsNil(outs)
+			name := byVal[k]
+			if name == "" {
+				name = "undefined"
+			}
+			role := "server"
+			want := clientSends(name)
+			if isClient {
+				role = "client"
+				want = serverSends(name)
+			}
+			key := fmt.Sprintf("direction:input-%s:%d(%s)", role, k, name)
+			switch {
+			case f.Over:
+				c.Undecided(key, in.Pos(), "constant propagation budget exceeded")
+			case acc && !want:
+				c.Bad(key, in.Pos(), "Session.input of a %s session lets protocol %d (%s) through its direction whitelist: a segment of its own sending direction (reflected or forged by a registered user) reaches session state", role, k, name)
+			case !acc && want:
+				c.Bad(key, in.Pos(), "Session.input of a %s session rejects protocol %d (%s), which its peer legitimately sends", role, k, name)
+			default:
+				c.OKH(key, in.Pos(), "%s session, protocol %d (%s): passes whitelist=%v as required", role, k, name, acc)
+			}
+		}
+	}
+}
